@@ -48,7 +48,14 @@ carquet_status_t carquet_lz4_decompress(
     uint8_t* op = dst;
     uint8_t* const oend = dst + dst_capacity;
 
-    while (ip < iend) {
+    for (;;) {
+        /* Every sequence starts with a token.  A block ends with a sequence that
+         * stops after its literals (the break below), so running out of input
+         * here means the block is empty or was cut after a match. */
+        if (ip >= iend) {
+            return CARQUET_ERROR_INVALID_COMPRESSED_DATA;
+        }
+
         /* Read token */
         uint8_t token = *ip++;
 
